@@ -229,6 +229,16 @@ def extra_families(ck, rnd, quick):
                     segs.append(sp.Line(V[-1], last_end) if len(verts) % 2 == 0 else sp.CubicBezier(V[-1], V[-1] + sc * (-2 - 1j), last_end + sc * (-1 + 2j), last_end))
                     for mjs, tight in combos[:2]:
                         generic_check(ck, sp.Path(*segs), mjs, tight, 'open path whose ends nearly meet (gap %g)' % gap)
+            # corner angles towards both ends of (0, 180): turns of 0.002 .. 5 degrees and 175 .. 179.99 degrees (a turn below 0.0006 degrees counts as smooth)
+            if sc == 1.0:
+                for turn in (0.002, 0.01, 0.1, 0.2, 1.0, 5.0, 175.0, 179.0, 179.8, 179.9, 179.99):
+                    d1 = cmath.exp(1j * math.radians(turn))
+                    p1 = O + 10.0
+                    p2 = p1 + 10 * d1
+                    for kinds in ('LL', 'LC', 'CL', 'CC'):
+                        s0 = sp.Line(O, p1) if kinds[0] == 'L' else sp.CubicBezier(O, O + 3 + 1j, p1 - 3, p1)
+                        s1 = sp.Line(p1, p2) if kinds[1] == 'L' else sp.CubicBezier(p1, p1 + 3 * d1, p2 - 3 * d1 + 1j, p2)
+                        generic_check(ck, sp.Path(s0, s1), 3, 1.99, 'corner turning by %r degrees (%s)' % (turn, kinds))
             # zero-length handle at a kinked joint
             for (a, b, c2, e) in ((0j, 6 + 0j, 7 + 4j, 12 + 5j), (0j, 5 + 2j, 3 + 7j, -2 + 9j), (0j, 4 - 3j, 9 - 1j, 10 + 6j)):
                 a, b, c2, e = (O + sc * z for z in (a, b, c2, e))
